@@ -237,7 +237,7 @@ def r5_thread_stdout(ctx, rule):
             if w:
                 bad = True
                 ctx.bad(rule, q, 'status thread writes to stdout: ' + U(c)[:70], 'a status/help request must not alter the guess '
-                        'stream (path %s)' % ' -> '.join(cg.path_to(par, q)), None, c)
+                        'stream (path %s)' % ' -> '.join(cg.path_to(par, q)), None, c, firm=True)
     if ctx.floor(rule, KEY, n, 50, 'call sites reachable from keypress') and not bad:
         ctx.ok(rule, KEY, 'no stdout write among the %d call sites reachable from the keyboard thread' % n)
 
